@@ -7,7 +7,7 @@ pub fn xml_char() -> BoxedStrategy<char> {
     prop_oneof![
         30 => prop::char::range(' ', '~'),
         6 => prop::sample::select(vec!['<', '>', '&', '"', '\'']),
-        3 => prop::sample::select(vec![' ', '\t', '\n']),
+        3 => prop::sample::select(vec![' ', '\t', '\n', '\r']),
         3 => prop::sample::select(vec!['é', 'ß', 'Ω', 'Ж', 'א', '日', '本', '한', '\u{3000}', '\u{a0}']),
         2 => prop::sample::select(vec!['😀', '𠀋', '🧪', '\u{1F600}', '\u{2000B}']),
         1 => prop::sample::select(vec!['e', '\u{301}', '\u{200d}', '\u{feff}']),
